@@ -158,6 +158,19 @@ func StepWorkflowPaths(wf *workflow.Workflow) map[string]string {
 // SubworkflowCache creates a file cache of the sub-workflows referenced
 // in this workflow using rootDir as a context.
 func SubworkflowCache(wf *workflow.Workflow, rootDir string, converter workflow.YAMLConverter, flowCaches []loadfile.FileCache) (loadfile.FileCache, error) {
+	return collectSubworkflowCache(wf, rootDir, converter, flowCaches, map[string]struct{}{})
+}
+
+// collectSubworkflowCache implements SubworkflowCache. The files whose sub-workflows are currently
+// being collected are tracked in loading, so that a sub-workflow that refers to itself
+// (directly or through other sub-workflows) is reported instead of recursing without bound.
+func collectSubworkflowCache(
+	wf *workflow.Workflow,
+	rootDir string,
+	converter workflow.YAMLConverter,
+	flowCaches []loadfile.FileCache,
+	loading map[string]struct{},
+) (loadfile.FileCache, error) {
 	stepWorkflowPaths := StepWorkflowPaths(wf)
 	if len(stepWorkflowPaths) == 0 {
 		return nil, nil
@@ -171,11 +184,17 @@ func SubworkflowCache(wf *workflow.Workflow, rootDir string, converter workflow.
 		return nil, err
 	}
 	for _, ctxFile := range subworkflowCache.Files() {
+		if _, isLoading := loading[ctxFile.AbsolutePath]; isLoading {
+			return nil, fmt.Errorf(
+				"sub-workflow file %s refers to itself, directly or through other sub-workflows", ctxFile.ID)
+		}
 		subwf, err := converter.FromYAML(ctxFile.Content)
 		if err != nil {
 			return nil, err
 		}
-		flowCache, err := SubworkflowCache(subwf, rootDir, converter, flowCaches)
+		loading[ctxFile.AbsolutePath] = struct{}{}
+		flowCache, err := collectSubworkflowCache(subwf, rootDir, converter, flowCaches, loading)
+		delete(loading, ctxFile.AbsolutePath)
 		if err != nil {
 			return nil, err
 		}
